@@ -55,6 +55,8 @@ SigClasses(k, a) ==
   \cup (IF a \in ESAlgs THEN { S("zeropad", a, k) @@ [w |-> w] : w \in {x \in {48, 66, 70} : 2 * x > EsSigLen(a)} } \cup { S("der", a, k) } ELSE {})
   \cup (IF a \in HSAlgs THEN { S("hmacempty", a, k), S("hmaczero32", a, k) @@ [len |-> 32] } ELSE {})
   \cup (IF a \in HSAlgs /\ k.kty # "oct" THEN { S("hmacpubpem", a, k) } ELSE {})
+  \* a MAC that begins with / contains a zero octet, offered with every octet after it changed
+  \cup (IF a \in HSAlgs /\ k.kty = "oct" THEN { S("zerohead", a, k), S("zerotail", a, k) } ELSE {})
 Alters == {"hdr", "pay", "paycase"}
 
 Pm == << StrM("sub", "x"), IntM("n", WOf(7)) >>
